@@ -1419,6 +1419,72 @@ fn pack(out: &mut Out, rng: &mut Rng, thorough: bool) {
 			}
 		}
 	}
+	// Proof::read on a byte stream: truncated (every kind of cut), exact, over-long
+	let mut cut = 0u64;
+	let mut cut_ok = 0u64;
+	for (ct, ps) in [(ChainTypes::AutomatedTesting, 8usize), (ChainTypes::Mainnet, 42usize)].iter() {
+		global::set_local_chain_type(*ct);
+		for w in 1u8..=63 {
+			let mut nonces: Vec<u64> = (0..*ps).map(|_| rng.next() & ((1u64 << w) - 1)).collect();
+			nonces.sort_unstable();
+			let p = Proof { edge_bits: w, nonces: nonces.clone() };
+			let pcl = p.clone();
+			let bytes = match catch(move || ser::ser_vec(&pcl, ser::ProtocolVersion::local())) {
+				Ok(Ok(b)) => b,
+				_ => continue,
+			};
+			let n = bytes.len();
+			let mut streams: Vec<Vec<u8>> = vec![
+				bytes.clone(),
+				bytes[..n - 1].to_vec(),
+				bytes[..n / 2].to_vec(),
+				bytes[..1].to_vec(),
+				bytes[..(1 + rng.below(n as u64 - 1) as usize)].to_vec(),
+				vec![],
+			];
+			if n > 9 {
+				streams.push(bytes[..9].to_vec());
+				streams.push(bytes[..8].to_vec());
+			}
+			for extra in [1usize, 3, 8] {
+				let mut b = bytes.clone();
+				b.extend_from_slice(&rng.bytes(extra));
+				streams.push(b);
+			}
+			for st in streams {
+				let stc = st.clone();
+				let r: Result<(Proof, usize), String> = catch(move || {
+					let mut src = &stc[..];
+					let r = ser::deserialize::<Proof, _>(
+						&mut src,
+						ser::ProtocolVersion::local(),
+						ser::DeserializationMode::default(),
+					);
+					r.map(|p| (p, src.len()))
+				})
+				.map_err(|_| "panic".to_string())
+				.and_then(|r| r.map_err(|_| "err".to_string()));
+				let res = match &r {
+					Ok((q, left)) => format!("{} {} {}", q.edge_bits, nat_list(&q.nonces), left),
+					Err(e) => e.clone(),
+				};
+				cut += 1;
+				let truncated = st.len() < n;
+				if truncated && r.is_ok() {
+					// (a packed length of less than 8 bytes is refused even when complete)
+					out.raw(&format!("#ORACLE-FAIL C05 truncated proof ({} of {} bytes) read as {}: bytes={}", st.len(), n, res, hex(&st)));
+				}
+				if !truncated && n - 1 >= 8 {
+					match &r {
+						Ok((q, left)) if q.nonces == nonces && q.edge_bits == w && *left == st.len() - n => cut_ok += 1,
+						_ => out.raw(&format!("#ORACLE-FAIL C05 complete proof followed by {} more bytes not read back: {} bytes={}", st.len() - n, res, hex(&st))),
+					}
+				}
+				out.line(&format!("pow readstream {} {}", ps, hex(&st)), &res);
+			}
+		}
+	}
+	out.raw(&format!("#STAT pack: Proof::read on byte streams (complete, cut at every kind of place, over-long)={} complete ones read back={}", cut, cut_ok));
 	// an edge_bits byte outside 1..=63 is refused before anything else is read
 	let mut bad_eb = 0u64;
 	for (ct, ps) in [(ChainTypes::AutomatedTesting, 8usize), (ChainTypes::Mainnet, 42usize)].iter() {
